@@ -1,10 +1,222 @@
-(* C15 — Modules load once, export read-only names, and cycles are reported. *)
+(* C15 — Modules load once, export read-only names, and cycles are reported.
+   Only statements, closed by [exact], and their assumptions.  The model (coq/model/Modules.v) is the REPAIRED
+   import algorithm (fixes/C15-1.patch, fixes/C15-2.patch); the two refuting witnesses of the pinned code are in
+   corpus/C15/cases.json and findings/C15.md.
+
+   [ord_exports] / [ord_nodes] are the iteration orders of the two Go maps that the algorithm ranges over (the export
+   table of "import all", the adjacency map of the DFS); every theorem holds for all orders that enumerate the same keys. *)
 From Coq Require Import List ZArith Bool.
 Import ListNotations.
 From Zn.model Require Import Modules.
-From Zn.proofs Require Import ModulesProofs.
+From Zn.proofs Require Import ModulesProofs ModulesDfsProofs ModulesLoadProofs.
 Open Scope Z_scope.
 
-Theorem C15_name_eqb : forall a b, name_eqb a b = true <-> a = b.
-Proof. exact name_eqb_eq. Qed.
-Print Assumptions C15_name_eqb.
+(* ---- the cycle test: for ALL finite digraphs (edge lists), any iteration order of the adjacency map *)
+Theorem C15_dfs_iff_cycle : forall (ord : list nat -> list nat) (g : list (nat * nat)),
+  (forall l x, In x (ord l) <-> In x l) ->
+  (check_circular ord g = Some true <-> exists v, pathp g v v).
+Proof. exact check_circular_iff_cycle. Qed.
+Print Assumptions C15_dfs_iff_cycle.
+
+(* the fuel the model gives the DFS always suffices (the Go recursion terminates), and "false" means acyclic *)
+Theorem C15_dfs_total : forall ord g, (forall l x, In x (ord l) <-> In x l) ->
+  check_circular ord g <> None /\ (check_circular ord g = Some false <-> ~ exists v, pathp g v v).
+Proof. intros ord g H. split; [exact (check_circular_total ord g H) | exact (check_circular_false_iff ord g H)]. Qed.
+Print Assumptions C15_dfs_total.
+
+Theorem C15_dfs_order_independent : forall ord1 ord2 g,
+  (forall l x, In x (ord1 l) <-> In x l) -> (forall l x, In x (ord2 l) <-> In x l) ->
+  check_circular ord1 g = check_circular ord2 g.
+Proof. exact check_circular_order_independent. Qed.
+Print Assumptions C15_dfs_order_independent.
+
+(* ---- name -> path: 导入“A-B-C” is A/B/C.zn under the main file's directory; 《@库》 is a library name *)
+Theorem C15_path_mapping : forall segs, segs <> [] -> Forall (fun s => ~ In c_dash s) segs ->
+  hd 0 (join_with c_dash segs) <> c_at ->
+  parse_lib_name (join_with c_dash segs) = (LibCustom, segs) /\
+  path_of_name (join_with c_dash segs) = add_zn segs /\
+  (forall pre last, segs = pre ++ [last] -> path_of_name (join_with c_dash segs) = pre ++ [last ++ dot_zn]) /\
+  (forall n, fst (parse_lib_name (c_at :: n)) = LibStd).
+Proof.
+  intros segs H1 H2 H3. destruct (path_mapping segs H1 H2 H3) as [A B].
+  split; [exact A|]. split; [exact B|]. split.
+  - intros pre last E. rewrite B, E. exact (add_zn_shape pre last).
+  - exact lib_name_parse.
+Qed.
+Print Assumptions C15_path_mapping.
+
+(* ---- each module's program is executed at most once per run: a run that ends normally logs the end of every module
+        at most once; and, for every outcome, importing a registered name never executes a program again *)
+Theorem C15_body_at_most_once : forall fs libs oe on mainfile,
+  (forall l x, In x (on l) <-> In x l) ->
+  (forall fuel st', run_main fs libs oe on fuel mainfile = (Ok, st') -> NoDup (fin st')) /\
+  (forall ld1 ld2 st imp, find_module st (i_name imp) <> None ->
+     eval_import_with fs libs oe on ld1 st imp = eval_import_with fs libs oe on ld2 st imp).
+Proof.
+  intros fs libs oe on mainfile Hon. split.
+  - exact (run_ok_nodup fs libs oe on Hon mainfile).
+  - exact (registered_never_reloaded fs libs oe on).
+Qed.
+Print Assumptions C15_body_at_most_once.
+
+(* ---- a module's own definitions and statements start only after every module it imports has finished
+        (all graphs: chains, diamonds, repeated imports; self-imports and cycles never reach the importer's body) *)
+Theorem C15_body_before_importer : forall fs libs oe on mainfile,
+  (forall l x, In x (on l) <-> In x l) ->
+  forall fuel st' l1 u l2 s n,
+    run_main fs libs oe on fuel mainfile = (Ok, st') ->
+    v_trace st' = l1 ++ EStart u :: l2 ->
+    m_src (get_mod st' u) = Some s -> In n (imports_of s) ->
+    exists b, find_module st' n = Some b /\ In (EDone b) l2.
+Proof. intros fs libs oe on mainfile Hon. exact (run_ok_imports_before_body fs libs oe on Hon mainfile). Qed.
+Print Assumptions C15_body_before_importer.
+
+(* a failing import (missing module, cycle, name clash, failing module program) aborts the importer at once *)
+Theorem C15_failing_import_aborts : forall fs libs oe on f id src st pre imp post st1 r st2,
+  s_imports src = pre ++ imp :: post ->
+  imports_loop fs libs oe on (run_program fs libs oe on f) st pre = (Ok, st1) ->
+  eval_import_with fs libs oe on (run_program fs libs oe on f) st1 imp = (r, st2) ->
+  r <> Ok ->
+  run_program fs libs oe on (S f) id src st = (r, st2).
+Proof. exact failing_import_aborts. Qed.
+Print Assumptions C15_failing_import_aborts.
+
+(* ---- exactly the exported names (all of them, in any map order) become visible, as constants that remember
+        their home module; nothing else in the importer's scope changes; assigning to one is error 44 *)
+Theorem C15_exports_exact_and_const : forall oe, (forall l xv, In xv (oe l) <-> In xv l) ->
+  forall st ext st',
+    import_symbols oe st ext [] = (Ok, st') ->
+    (forall x, (exists v, In (x, v) (m_exports (get_mod st ext))) ->
+       exists y, scope_lookup (sc_syms (cur_scope st')) x = Some y /\ y_const y = true /\ y_ext y = Some ext /\
+                 In (x, y_val y) (m_exports (get_mod st ext))) /\
+    (forall x, ~ (exists v, In (x, v) (m_exports (get_mod st ext))) ->
+       scope_lookup (sc_syms (cur_scope st')) x = scope_lookup (sc_syms (cur_scope st)) x) /\
+    (forall x callee, (exists v, In (x, v) (m_exports (get_mod st ext))) ->
+       exec_stmt_with callee st' (SAssign x) = (Err E_AssignToConstant, st')) /\
+    v_mods st' = v_mods st /\ v_trace st' = v_trace st.
+Proof.
+  intros oe Hoe st ext st' H.
+  pose proof (import_symbols_exact oe st ext [] st' H) as (C & V & N).
+  assert (Hin : forall x, In x (map fst (imported_list oe st ext [])) <-> exists v, In (x, v) (m_exports (get_mod st ext))).
+  { intros x. rewrite in_map_iff. split.
+    - intros [[x' v] [E I]]. simpl in E. subst. exists v. apply (imported_all oe Hoe). exact I.
+    - intros [v I]. exists (x, v). split; [reflexivity | apply (imported_all oe Hoe); exact I]. }
+  split; [|split; [|split]].
+  - intros x Hx. destruct (V x (proj2 (Hin x) Hx)) as (y & A & B & D & E).
+    exists y. repeat split; auto. apply (imported_all oe Hoe). exact E.
+  - intros x Hx. apply N. intros Hc. apply Hx. apply Hin. exact Hc.
+  - intros x callee Hx. apply (imported_name_is_const oe st ext [] st' x callee H). apply Hin. exact Hx.
+  - destruct C as (A & _ & _ & _ & B). split; assumption.
+Qed.
+Print Assumptions C15_exports_exact_and_const.
+
+(* ---- 导入“M”之 a、b : exactly the listed names that M exports; an import either succeeds or is error 43 (redeclared) *)
+Theorem C15_selective_import : forall oe st ext items st',
+  items <> [] ->
+  import_symbols oe st ext items = (Ok, st') ->
+  (forall x, In x items -> (exists v, assoc_find (m_exports (get_mod st ext)) x = Some v) ->
+     exists y, scope_lookup (sc_syms (cur_scope st')) x = Some y /\ y_const y = true /\ y_ext y = Some ext /\
+               assoc_find (m_exports (get_mod st ext)) x = Some (y_val y)) /\
+  (forall x, ~ (In x items /\ exists v, assoc_find (m_exports (get_mod st ext)) x = Some v) ->
+     scope_lookup (sc_syms (cur_scope st')) x = scope_lookup (sc_syms (cur_scope st)) x) /\
+  (forall r s, import_symbols oe st ext items = (r, s) -> r = Ok \/ r = Err E_NameRedeclared).
+Proof.
+  intros oe st ext items st' Hne H.
+  pose proof (import_symbols_exact oe st ext items st' H) as (C & V & N).
+  split; [|split].
+  - intros x Hi Hv. destruct (V x (proj2 (imported_listed oe st ext items x Hne) (conj Hi Hv))) as (y & A & B & D & E).
+    exists y. repeat split; auto.
+    unfold imported_list in E. destruct items; [contradiction|]. apply select_exports_In in E. tauto.
+  - intros x Hx. apply N. intros Hc. apply Hx. apply (imported_listed oe st ext items x Hne). exact Hc.
+  - intros r s Hr. exact (import_symbols_res oe st ext items r s Hr).
+Qed.
+Print Assumptions C15_selective_import.
+
+(* ---- a missing module is error 60, a missing library error 64 (and the importer is aborted, see above) *)
+Theorem C15_missing_is_error : forall fs libs oe on loader st imp,
+  (fst (parse_lib_name (i_name imp)) = LibCustom -> find_module st (i_name imp) = None ->
+   fs_find fs (path_of_name (i_name imp)) = None ->
+   eval_import_with fs libs oe on loader st imp = (Err E_ModuleNotFound, st)) /\
+  (fst (parse_lib_name (i_name imp)) = LibStd -> lib_find libs (i_name imp) = None ->
+   fst (eval_import_with fs libs oe on loader st imp) = Err E_LibraryNotFound).
+Proof.
+  intros. split.
+  - exact (import_missing_module fs libs oe on loader st imp).
+  - exact (import_missing_library fs libs oe on loader st imp).
+Qed.
+Print Assumptions C15_missing_is_error.
+
+(* ---- cycles: if the import relation of the files has a cycle reachable from the main file, the run never ends
+        normally (no silently half-initialised modules); the import that closes a cycle is answered with error 63 *)
+Theorem C15_cycle_reported : forall fs libs oe on mainfile,
+  (forall l x, In x (on l) <-> In x l) ->
+  (forall fuel n, reach fs mainfile main_module_name n -> fpath fs mainfile n n ->
+     fst (run_main fs libs oe on fuel mainfile) <> Ok) /\
+  (forall st n b, find_module st n = Some b -> (exists v, pathp (v_edges st) v v) ->
+     check_dependency on st n = Err E_CircularDependency).
+Proof.
+  intros fs libs oe on mainfile Hon. split.
+  - exact (cycle_never_ok fs libs oe on Hon mainfile).
+  - exact (check_dependency_cycle on Hon).
+Qed.
+Print Assumptions C15_cycle_reported.
+
+(* ---- an imported method runs on a frame of its home module, where that module's own methods and types are found
+        (whatever the importer's scope contains, and also after the home module's program has ended) *)
+Theorem C15_imported_method_sees_home_module :
+  (forall (callee : vm -> list stmt -> res * vm) st f y h body r st',
+     scope_lookup (sc_syms (cur_scope st)) f = Some y -> y_ext y = Some h -> y_val y = VFun body ->
+     assoc_find (m_exports (get_mod st (cur_id st))) f = None ->
+     exec_stmt_with callee st (SCall f) = (r, st') ->
+     exists sa sb r0, v_cs sa = Some h /\ v_mods sa = v_mods st /\ v_trace sa = v_trace st /\
+                      callee sa body = (r0, sb) /\ r = match r0 with Ok => Ok | other => wrap_exc other end) /\
+  (forall st h x v,
+     v_cs st = Some h -> assoc_find (m_exports (get_mod st h)) x = Some v ->
+     (forall y, scope_lookup (sc_syms (cur_scope st)) x = Some y -> y_depth y = 0%nat) ->
+     find_with_module st x = Some (v, h)).
+Proof. split; [exact imported_call_frame | exact home_lookup]. Qed.
+Print Assumptions C15_imported_method_sees_home_module.
+
+(* ------------------------------------------------------------------ non-vacuity: the model on concrete file sets *)
+Definition nm (l : list Z) : name := l.
+Definition A : name := [30002].  (* 甲 *)
+Definition B : name := [20057].  (* 乙 *)
+Definition fileA := [A ++ dot_zn].
+Definition fileB := [B ++ dot_zn].
+Definition libs0 : libraries := [].
+
+(* the two-file witness 甲 <-> 乙: error 63 and no body has run *)
+Example C15_example_cycle :
+  observe [(fileA, mkSource [mkImport B []] [] [SMark 1]); (fileB, mkSource [mkImport A []] [] [SMark 2])]
+          libs0 fileA 20 = [[1; 63]; []].
+Proof. vm_compute. reflexivity. Qed.
+
+(* a diamond: 丁 once, before 乙 and 丙, which come before the main body; the imported method reaches its home module *)
+Definition C := [19993]%Z. Definition D := [19969]%Z.
+Definition fA := [27861; 30002]%Z.  Definition fD := [27861; 19969]%Z.  Definition fD2 := [36741; 19969]%Z.
+Example C15_example_diamond :
+  observe [ (fileA, mkSource [mkImport B []; mkImport C []] [] [SMark 1; SCall fA; SMark 2]);
+            ([B ++ dot_zn], mkSource [mkImport D []] [DFun fA [SMark 3; SCall fD]] [SMark 4]);
+            ([C ++ dot_zn], mkSource [mkImport D [fD2]] [] [SMark 5; SRef fD2; SAssign fD2]);
+            ([D ++ dot_zn], mkSource [] [DFun fD [SMark 6; SCall fD2]; DFun fD2 [SMark 7]] [SMark 8]) ]
+          libs0 fileA 20 = [[1; 44]; [8; 4; 5]].
+Proof. vm_compute. reflexivity. Qed.
+
+Example C15_example_diamond_ok :
+  observe [ (fileA, mkSource [mkImport B []; mkImport C []] [] [SMark 1; SCall fA; SMark 2]);
+            ([B ++ dot_zn], mkSource [mkImport D []] [DFun fA [SMark 3; SCall fD]] [SMark 4]);
+            ([C ++ dot_zn], mkSource [mkImport D [fD2]] [] [SMark 5; SRef fD2]);
+            ([D ++ dot_zn], mkSource [] [DFun fD [SMark 6; SCall fD2]; DFun fD2 [SMark 7]] [SMark 8]) ]
+          libs0 fileA 20 = [[0]; [8; 4; 5; 1; 3; 6; 7; 2]].
+Proof. vm_compute. reflexivity. Qed.
+
+Example C15_example_missing :
+  observe [(fileA, mkSource [mkImport B []] [] [SMark 1])] libs0 fileA 20 = [[1; 60]; []].
+Proof. vm_compute. reflexivity. Qed.
+
+Example C15_example_path : path_of_name (join_with c_dash [A; B; C]) = [A; B; C ++ dot_zn].
+Proof. vm_compute. reflexivity. Qed.
+
+Example C15_example_dfs : check_circular id_nodes [(0, 1); (1, 2); (2, 0)]%nat = Some true /\
+                          check_circular id_nodes [(0, 1); (1, 2); (0, 2)]%nat = Some false.
+Proof. vm_compute. split; reflexivity. Qed.
